@@ -1924,21 +1924,17 @@ class LeCreditBasedChannel(utils.EventEmitter):
 
             if self.out_queue:
                 # Create the next SDU (2 bytes header plus up to MTU bytes payload)
-                logger.debug(
-                    f'assembling SDU from {len(self.out_queue)} packets in output queue'
-                )
-                payload = b''
-                while self.out_queue and len(payload) < self.peer_mtu:
-                    # We can add more data to the payload
-                    chunk = self.out_queue[0][: self.peer_mtu - len(payload)]
-                    payload += chunk
-                    self.out_queue[0] = self.out_queue[0][len(chunk) :]
-                    if len(self.out_queue[0]) == 0:
-                        # We consumed the entire buffer, remove it
-                        self.out_queue.popleft()
-                        logger.debug(
-                            f'packet completed, {len(self.out_queue)} left in queue'
-                        )
+                # from the next packet in the queue. Packets are not merged: an SDU
+                # boundary is a message boundary for the protocols that run over the
+                # channel (a packet larger than the peer MTU spans several SDUs).
+                payload = self.out_queue[0][: self.peer_mtu]
+                self.out_queue[0] = self.out_queue[0][len(payload) :]
+                if len(self.out_queue[0]) == 0:
+                    # We consumed the entire buffer, remove it
+                    self.out_queue.popleft()
+                    logger.debug(
+                        f'packet completed, {len(self.out_queue)} left in queue'
+                    )
 
                 # Construct the SDU with its header
                 assert len(payload) != 0
